@@ -601,6 +601,51 @@ func runReenc(c *h.Ctx, rc ReencCase) {
 				dc.name, rc.Kind, rc.Item, alg, sealed, id, variant, got)
 		}
 	}
+	// the LENIENT decoders (FromDagCbor takes any DAG-CBOR spelling) may accept the variant; what they return is the
+	// token, not its spelling: sealed again by the issuer it gives canonical bytes - for a deterministic scheme the
+	// very bytes of the original sealing - that unseal under the CID that is reported
+	if !isSig && !rc.Resign {
+		type resealer interface {
+			ToSealed(crypto.PrivKey) ([]byte, cid.Cid, error)
+			ToDagCbor(crypto.PrivKey) ([]byte, error)
+		}
+		var lenient []func() (token.Token, error)
+		lenient = append(lenient, func() (token.Token, error) { return token.FromDagCbor(variant) })
+		if rc.Tok.Dlg != nil {
+			lenient = append(lenient, func() (token.Token, error) { t, err := delegation.FromDagCbor(variant); if err != nil { return nil, err }; return t, nil })
+		} else {
+			lenient = append(lenient, func() (token.Token, error) { t, err := invocation.FromDagCbor(variant); if err != nil { return nil, err }; return t, nil })
+		}
+		for li, lf := range lenient {
+			var lt token.Token
+			var lerr error
+			if pn, _, _ := h.Try(func() { lt, lerr = lf() }); pn || lerr != nil || lt == nil {
+				continue
+			}
+			rs, ok := lt.(resealer)
+			if !ok {
+				continue
+			}
+			out, oid, serr := rs.ToSealed(priv)
+			if serr != nil {
+				c.Fail("C08/reseal/fails", "a token read by the lenient DAG-CBOR decoder (%d) from a re-encoding (%s) cannot be sealed by its issuer: %v", li, rc.Kind, serr)
+				continue
+			}
+			if !cidOK(oid, out) {
+				c.Fail("C08/reseal/cid", "re-sealing a token read from a re-encoding (%s) reports %s for bytes hashing to %x", rc.Kind, oid, refCID(out))
+			}
+			if _, id3, uerr := token.FromSealed(out); uerr != nil || id3 != oid {
+				c.Fail("C08/reseal/not-canonical", "a token read by the lenient DAG-CBOR decoder from a re-encoding (%s), sealed again by its issuer, gives bytes that FromSealed refuses / files elsewhere: %v (%s vs %s)", rc.Kind, uerr, id3, oid)
+			}
+			if (alg == keys.Ed25519 || alg == keys.RSA) && !bytes.Equal(out, sealed) {
+				c.Fail("C08/reseal/other-bytes", "a token read from a re-encoding (%s) and sealed again by its issuer (deterministic scheme %s) gives other bytes than the original sealing: the same signed content under a second CID (%s vs %s)", rc.Kind, alg, oid, id)
+			}
+			if cb, cerr := rs.ToDagCbor(priv); cerr == nil && (alg == keys.Ed25519 || alg == keys.RSA) && !bytes.Equal(cb, sealed) {
+				c.Fail("C08/reseal/other-bytes", "ToDagCbor of a token read from a re-encoding (%s) returns other bytes than the canonical sealing", rc.Kind)
+			}
+			c.P.Class("reenc/lenient-accepted-and-resealed")
+		}
+	}
 	if accepted > 0 {
 		c.P.Class("reenc/accepted:" + rc.Kind)
 	} else {
